@@ -203,6 +203,17 @@ def run(eng, ctx, with_socket=True):
                           found=guard_text(conj)[:140], **eng.loc(f, e.node))
     ctx.instance("consume-on-committing-path obligations", nchk, 3)
 
+    # the size parse failing: the ValueError handler itself, or - once the handler has substituted a default and control has left the try - the
+    # exception path of a try statement whose body is the size parse and whose handlers catch ValueError only
+    parse_trys = set()
+    for t_ in ast.walk(f.node):
+        if isinstance(t_, ast.Try) and t_.handlers and all(h.type is not None and "ValueError" in norm(h.type) and norm(h.type) in ("ValueError", "(ValueError,)") for h in t_.handlers) \
+                and any(isinstance(c_, ast.Call) and norm(c_.func) == "int" for st__ in t_.body for c_ in ast.walk(st__)):
+            parse_trys.add(f"T{t_.lineno}")
+
+    def parse_failed(c):
+        return (c[0] == "caught" and "ValueError" in c[3]) or (c[0] == "exc-path" and c[1] in parse_trys)
+
     # ---------------- D2
     ctx.rule("C12.D2", "every exit taken because a consume was incomplete carries all bytes consumed in the iteration, in order; other exits are the two named drop-the-remainder exits")
     cat = CatContext()
@@ -222,7 +233,7 @@ def run(eng, ctx, with_socket=True):
                 ctx.check(segs == want, "C12.D2", dq, f"carry on incomplete {norm(incomplete[0].node)}", expected="partial = " + " ‖ ".join(norm(e.node) for e in path),
                           found=cat.render(segs) if segs else show(pv)[:80], detail=f"exit under {lbl}", **eng.loc(f, incomplete[0].node))
                 continue
-            if any(c[0] == "caught" and "ValueError" in c[3] for c, p in conj if p):
+            if any(parse_failed(c) for c, p in conj if p):
                 ctx.check(pv == ("const", b""), "C12.D2", dq, "exit on malformed size line", expected=EXEMPT_EXITS["ValueError"] + "; nothing is carried into the next segment", found=show(pv)[:60], **loc)
                 continue
             zero = any(c[0] == "cmp" and c[3] == ("const", 0) and ((c[1] == "==" and p) or (c[1] == "!=" and not p)) and c[2][0] == "call" and c[2][2] == ("builtin", "int") for c, p in conj)
@@ -252,7 +263,8 @@ def run(eng, ctx, with_socket=True):
             ctx.check(not wrong, "C12.D3", dq, f"{norm(e.node)[:40]} guard", expected="issued for non-zero sizes", found=guard_text(conj)[:100], **eng.loc(f, e.node))
             # nothing else decides whether the body is read: besides the size test only completeness tests of consumed pieces may guard it
             cterms = [c.term for c in consumes]
-            other = [(c, pol) for c, pol in conj if not (c[0] == "cmp" and c[2] in sizes and is_const(c[3])) and not any(mentions(c, lambda s_, t=t: s_ == t) for t in cterms) and c != info.get("test")]
+            other = [(c, pol) for c, pol in conj if not (c[0] == "cmp" and c[2] in sizes and is_const(c[3])) and not any(mentions(c, lambda s_, t=t: s_ == t) for t in cterms) and c != info.get("test")
+                     and not (parse_failed(c) and not pol)]  # "the size parse succeeded" is part of having a size
             ctx.check(not other, "C12.D3", dq, f"{norm(e.node)[:40]} has no other precondition", expected="size line complete and size != 0", found=guard_text(other)[:100], **eng.loc(f, e.node))
             has_size = any(c[0] == "cmp" and c[2] in sizes and is_const(c[3]) for c, pol in conj)
             later_zero = any(x.kind == "call" and x is not e and False for x in se.effects)
